@@ -270,7 +270,13 @@ func TestVerifC05(t *testing.T) {
 				return []hdOp{{K: "msg", C: c, To: &hdRecipient{T: "call"}, Tag: tag}, {K: "ctl", C: c, To: &hdRecipient{T: "call"}, Tag: tag + 1},
 					{K: "msg", C: c, To: &hdRecipient{T: "room"}, Tag: tag + 2}, {K: "ctl", C: c, To: &hdRecipient{T: "room"}, Tag: tag + 3},
 					{K: "msg", C: c, To: &hdRecipient{T: "user", U: 2}, Tag: tag + 4}, {K: "msg", C: c, To: hdToSession(2), Tag: tag + 5},
-					{K: "ctl", C: c, To: hdToSession(4), Tag: tag + 6}}
+					{K: "ctl", C: c, To: hdToSession(4), Tag: tag + 6},
+					// members the recipient's type does not call for: the type alone decides
+					{K: "msg", C: c, To: &hdRecipient{T: "room", SU: 2}, Tag: tag + 7}, {K: "ctl", C: c, To: &hdRecipient{T: "room", SU: 1}, Tag: tag + 8},
+					{K: "msg", C: c, To: &hdRecipient{T: "call", SU: 2}, Tag: tag + 9}, {K: "ctl", C: c, To: &hdRecipient{T: "call", SId: &hdIdRef{T: "pub", C: 3}}, Tag: tag + 10},
+					{K: "msg", C: c, To: &hdRecipient{T: "room", SId: &hdIdRef{T: "pub", C: 4}}, Tag: tag + 11},
+					{K: "msg", C: c, To: &hdRecipient{T: "user", U: 2, SId: &hdIdRef{T: "pub", C: 1}}, Tag: tag + 12},
+					{K: "ctl", C: c, To: &hdRecipient{T: "session", Id: &hdIdRef{T: "pub", C: 2}, SU: 1}, Tag: tag + 13}}
 			}
 			ops := []hdOp{{K: "connect", C: 1}, {K: "connect", C: 2}, {K: "connect", C: 3}, {K: "connect", C: 4},
 				{K: "hello", C: 1, B: 0, U: 1}, {K: "hello", C: 2, B: 0, U: 2}, {K: "hello", C: 3, B: 0, U: 2}, {K: "hello", C: 4, B: 1, U: 2},
